@@ -625,6 +625,29 @@ fn model(case: &GramCase, start: usize, terms: &[usize], toks: &[InTok]) -> Resu
     Ok(out)
 }
 
+/// The error stored in the `ErrorRecovery` value (rendered `Recov<variant|a|b|c|exp;exp><dropped>`
+/// by batch_rt/rt.rs) that reports the wanted token (`None`: the end of input).
+fn first_recovered_error(val: &str, want: Option<&(String, String)>) -> Option<(String, String, String, String, Vec<String>)> {
+    let mut rest = val;
+    while let Some(p) = rest.find("Recov<") {
+        rest = &rest[p + 6..];
+        let Some(end) = rest.find('>') else { break };
+        let f: Vec<&str> = rest[..end].split('|').collect();
+        if f.len() != 5 {
+            continue;
+        }
+        let hit = match want {
+            Some((lo, tok)) => f[0] == "UnrecognizedToken" && f[1] == lo && f[2] == tok,
+            None => f[0] == "UnrecognizedEof",
+        };
+        if hit {
+            let expected = if f[4].is_empty() { vec![] } else { f[4].split(';').map(|x| x.to_string()).collect() };
+            return Some((f[0].to_string(), f[1].to_string(), f[2].to_string(), f[3].to_string(), expected));
+        }
+    }
+    None
+}
+
 fn tok_render(t: &InTok) -> String {
     if t.builtin {
         return format!("{:?}", t.text);
@@ -1183,12 +1206,34 @@ fn evaluate_cases(
                         }
                         continue;
                     }
+                    // recovery grammars whose parse went on after the first error: that
+                    // error is the `ErrorRecovery::error` of an error node in the result
+                    let recovered: Option<Resp> = match r {
+                        Resp::Ok { val, pulls, log } if recovery_case => {
+                            let want_lo = m.dead_at.map(|k| (format!("@{}", toks[k - 1].lo), tok_render(&toks[k - 1])));
+                            first_recovered_error(val, want_lo.as_ref()).map(|(variant, a, b, c, expected)| Resp::Err {
+                                variant,
+                                a,
+                                b,
+                                c,
+                                expected,
+                                pulls: *pulls,
+                                log: log.clone(),
+                            })
+                        }
+                        _ => None,
+                    };
+                    let from_recovery_value = recovered.is_some();
+                    let r = recovered.as_ref().unwrap_or(r);
                     let Resp::Err { variant, a, b, c: cc, expected, pulls, .. } = r else {
                         if count {
                             ck.skip("non-sentence not rejected with a ParseError (C01/C08 domain)");
                         }
                         continue;
                     };
+                    if count && from_recovery_value {
+                        ck.class("c05_first_error_taken_from_a_recovered_error_node");
+                    }
                     let n = terms.len();
                     // consumed prefix length
                     let consumed = match m.dead_at {
